@@ -538,7 +538,7 @@ def build_pool_strings(pool, master, pipeline_strings, n_respell, n_mutate):
 # run specs
 # --------------------------------------------------------------------------
 CLASS_MIX = {
-    "C14": (("A", 0.40), ("B", 0.20), ("C", 0.25), ("D", 0.15)),
+    "C14": (("A", 0.35), ("B", 0.27), ("C", 0.23), ("D", 0.15)),
     "C12": (("A", 0.45), ("B", 0.35), ("C", 0.20)),
     "C16": (("A", 0.60), ("B", 0.40)),
 }
@@ -558,6 +558,12 @@ ABORT_SITES = {
         ("ATN.py", None),
         ("LL1Analyzer.py", None),
         ("parser/parser.py", None),
+        ("parser/parser.py", "to_graph"),
+        ("parser/parser.py", "enterTuple"),
+        ("parser/parser.py", "_add_atoms"),
+        ("tree/Tree.py", "walk"),
+        ("tree/Tree.py", None),
+        ("tucanParser.py", None),
         ("graph_utils.py", None),
     ],
     "serialize": [("serialization.py", "_assign_final_labels"), ("serialization.py", None), ("graph_utils.py", None)],
@@ -601,6 +607,7 @@ class _ClientGen:
         self.mols, self.strs, self.bad_mols, self.files = mols, strs, bad_mols, files
         self.rewrites = rewrites or {}  # private path -> list of text ids that may be written to it
         self.valid_strs = set()  # ids of strings expected to be accepted
+        self._in_followup = False
         self.parse_bias = 0.0  # long histories: share of sources that are parses of many distinct strings
         self.mult = {}  # swarm: per-run multipliers of the op weights
         self.seed_palette = None  # C16: the few permutation seeds this run uses
@@ -617,8 +624,12 @@ class _ClientGen:
         while b["op"] == "again":
             b = self.ops[b["of"]]
         kind = b["op"]
-        if self.faulty and kind in ABORT_SITES and self.rng.random() < 0.18:
-            if self.rng.random() < 0.5:
+        if self.faulty and kind in ABORT_SITES and "abort" not in op and not self._in_followup and self.rng.random() < 0.18:
+            um = self.rng.random()
+            if um < 0.35:
+                # anywhere in the operation, uniformly over its (estimated) length
+                op["abort"] = {"frac": round(self.rng.uniform(0.0, 1.15), 4)}
+            elif um < 0.65:
                 site = self.rng.choice(ABORT_SITES[kind])
                 op["abort"] = {"site": list(site), "n": _loguniform(self.rng, 1, 300)}
             else:
@@ -639,7 +650,84 @@ class _ClientGen:
                 self.live["canon"].append(i)
         if op["op"] in ABORT_SITES:
             self.callops.append(i)
+        if "abort" in op and not self._in_followup and self.rng.random() < 0.6:
+            # what matters is the call *after* the interrupted one: same kind, at once
+            self._in_followup = True
+            try:
+                if kind == "parse" and self.strs and self.rng.random() < 0.7:
+                    t = self.rng.choice(self.strs)
+                    self._add({"op": "parse", "text": t}, "graph" if t in self.valid_strs else None)
+                elif kind in ("read", "read_file") and self.mols:
+                    self._add({"op": "read", "text": self.rng.choice(self.mols)}, "graph")
+                elif self._args_live(i):
+                    self._add({"op": "again", "of": i}, None)
+            finally:
+                self._in_followup = False
         return i
+
+    def abort_sweep(self):
+        """Two uninterrupted calls of one kind (the second measures the warm length),
+        a third one interrupted at a uniformly drawn fraction of that length, then
+        the calls whose results matter: another one of the kind and a repeat."""
+        r = self.rng
+        kinds = ["parse"] * 5 + ["serialize", "canon", "read", "write"] + (["permute"] * 4 if self.prop == "C16" else ["permute"])
+        kind = r.choice(kinds)
+        ab = {"frac": round(r.uniform(0.0, 1.1), 4)}
+        if r.random() < 0.25:
+            ab["exc"] = "MemoryError"
+        self._in_followup = True
+        try:
+            if kind == "parse":
+                vs = [t for t in self.strs if t in self.valid_strs]
+                if len(vs) < 1:
+                    return
+                sx = r.choice(vs)
+                if r.random() < 0.5:
+                    # phase-stratified: lexing, prediction, rule code, tree walk, listener, graph building
+                    site = r.choice([("LexerATNSimulator.py", None), ("ParserATNSimulator.py", None), ("tucanParser.py", None), ("tree/Tree.py", "walk"), ("tree/Tree.py", None), ("parser/parser.py", "enterTuple"), ("parser/parser.py", "_add_atoms"), ("parser/parser.py", "to_graph"), ("graph_utils.py", None)])
+                    ab = dict(ab, site=list(site), n=_loguniform(r, 1, 200))
+                    ab.pop("frac")
+                self._add({"op": "parse", "text": r.choice(vs)}, "graph")
+                # the same string once uninterrupted: its length is then the exact estimate
+                self._add({"op": "parse", "text": sx}, "graph")
+                x = self._add({"op": "parse", "text": sx, "abort": ab}, "graph")
+                self._add({"op": "parse", "text": r.choice(self.strs)}, None)
+                self._add({"op": "again", "of": x}, "graph")
+            elif kind == "read":
+                if not self.mols:
+                    return
+                mx = r.choice(self.mols)
+                self._add({"op": "read", "text": r.choice(self.mols)}, "graph")
+                self._add({"op": "read", "text": mx}, "graph")
+                x = self._add({"op": "read", "text": mx, "abort": ab}, "graph")
+                self._add({"op": "read", "text": r.choice(self.mols)}, "graph")
+                self._add({"op": "again", "of": x}, "graph")
+            else:
+                if not self.mols:
+                    return
+                mx = r.choice(self.mols)
+                gs = [self._add({"op": "read", "text": t}, "graph") for t in (r.choice(self.mols), mx, mx)]
+                if kind in ("serialize", "write") and r.random() < 0.7:
+                    gs = [self._add({"op": "canon", "arg": g}, "graph", canon=True) for g in gs]
+
+                def call(g, extra=None):
+                    o = {"op": kind, "arg": g}
+                    if kind == "permute":
+                        o["seed"] = r.choice(self.seed_palette or [0.5])
+                    if kind == "write":
+                        o["calc"] = False
+                    if extra:
+                        o["abort"] = extra
+                    rt = {"canon": "graph", "serialize": "string", "write": None, "permute": None if self.multi else "graph"}[kind]
+                    return self._add(o, rt, canon=(kind == "canon"))
+
+                call(gs[0])
+                call(gs[1])
+                x = call(gs[2], ab)
+                call(gs[r.randrange(3)])
+                self._add({"op": "again", "of": x}, None)
+        finally:
+            self._in_followup = False
 
     def _graphs(self):
         return self.live["graph"]
@@ -843,6 +931,8 @@ def gen_spec(run_seed, prop, pool, hashseeds, knobs=None):
         cg.valid_strs = set(valid_strs)
         cg.mult = mult
         cg.seed_palette = palette
+        if cg.faulty and own_rng.random() < 0.55:
+            cg.abort_sweep()
         while len(cg.ops) < nops:
             cg.step()
         return cg.ops
